@@ -76,6 +76,32 @@ Definition sgr_matches (colon rgb8 : bool) (p : pen) (s : attrs) : Prop :=
   (forall a, vt_attr s a = match p a with Some v => enc colon rgb8 a v | None => vt_attr default_attrs a end)
   /\ a_faint s = false.
 
+(* the invariant of the pen path: the cached pen is the (palette-converted) logical pen and
+   the terminal's rendition is what the cached pen stands for *)
+Definition PenInv (colors : Z) (colon rgb8 : bool) (l tp : pen) (v : vt) : Prop :=
+  pen_in_range l /\ (forall a, tp a = cache_of colors l a) /\ sgr_matches colon rgb8 tp (v_sgr v).
+
+(* histories of pen requests: (is_set, pen) *)
+Fixpoint logical_run (l : pen) (ops : list (bool * pen)) : pen :=
+  match ops with
+  | [] => l
+  | (is_set, p) :: r => logical_run (if is_set then logical_set l p else logical_ch l p) r
+  end.
+Fixpoint pen_run (capacity : Z) (colon rgb8 : bool) (s : tpstate) (ops : list (bool * pen))
+  : option (tpstate * list token) :=
+  match ops with
+  | [] => Some (s, [])
+  | (is_set, p) :: r =>
+      match (if is_set then do_setpen else do_chpen) capacity colon rgb8 s p with
+      | None => None
+      | Some (s', ts) =>
+          match pen_run capacity colon rgb8 s' r with
+          | None => None
+          | Some (s'', ts') => Some (s'', ts ++ ts')
+          end
+      end
+  end.
+
 (* ---- equality of pens as values *)
 Definition optrgb_eqb (x y : option rgb) : bool :=
   match x, y with
